@@ -325,3 +325,301 @@ Proof.
   destruct (Squash.squash_step s0 e) as [s1|] eqn:E1; cbn in E; [|discriminate].
   apply (IH s1); [|exact E]. eapply inv_squash_step; eauto.
 Qed.
+
+(** ---------------------------------------------------------------- the aromaticity transcript keeps the invariant *)
+Lemma agood_adel_inv R k a : k <> S "fragid" -> agood R (adel k a) -> agood R a.
+Proof.
+  intros N. unfold agood. induction a as [|[k' v'] r IH]; cbn; [auto|].
+  destruct (str_eqb_spec k k') as [->|N']; intros H.
+  - constructor; [now apply egood_other|exact H].
+  - inversion H; subst. constructor; auto.
+Qed.
+Lemma agood_ainsert R kv a : agood R (ainsert kv a) <-> egood R kv /\ agood R a.
+Proof.
+  unfold agood. induction a as [|x r IH]; cbn.
+  - split; [intros H; inversion H; auto|intros [A B]; constructor; auto].
+  - destruct (str_ltb (fst kv) (fst x)).
+    + split; [intros H; inversion H; auto|intros [A B]; constructor; auto].
+    + split.
+      * intros H. inversion H; subst. apply IH in H3 as [A B]. split; [exact A|constructor; auto].
+      * intros [A B]. inversion B; subst. constructor; [auto|]. apply IH. auto.
+Qed.
+Lemma agood_asort R a : agood R (asort a) <-> agood R a.
+Proof.
+  unfold asort. induction a as [|x r IH]; cbn; [tauto|]. rewrite agood_ainsert, IH. unfold agood.
+  split; [intros [A B]; constructor; auto|intros H; inversion H; auto].
+Qed.
+Lemma keyin_eqb R : forall l l', pyval_eqb (VList l) (VList l') = true -> Forall (key_in R) l -> Forall (key_in R) l'.
+Proof.
+  induction l as [|x r IH]; destruct l' as [|y r']; cbn; try discriminate; [constructor|].
+  intros H F. apply andb_true_iff in H as [H1 H2]. inversion F as [|? ? [c [-> Hc]] Fr]; subst.
+  constructor.
+  - destruct y; cbn in H1; try discriminate. apply Z.eqb_eq in H1. subst. exists z. auto.
+  - apply IH; [exact H2|exact Fr].
+Qed.
+Lemma vok_eqb R v v' : vok R v -> pyval_eqb v v' = true -> vok R v'.
+Proof.
+  intros [->|[l [-> F]]] H.
+  - destruct v'; try discriminate. now left.
+  - destruct v'; try discriminate. right. exists l0. split; [reflexivity|]. eapply keyin_eqb; eauto.
+Qed.
+Lemma agood_eqb_ordered R : forall a b, attrs_eqb_ordered a b = true -> agood R a -> agood R b.
+Proof.
+  unfold agood. induction a as [|[k v] r IH]; destruct b as [|[k' v'] r']; cbn; try discriminate; [auto|].
+  intros H F. apply andb_true_iff in H as [H H3]. apply andb_true_iff in H as [H1 H2]. inversion F; subst.
+  apply str_eqb_eq in H1. subst k'. constructor; [|now apply IH].
+  intros E. cbn in *. eapply vok_eqb; [apply H4; exact E|exact H2].
+Qed.
+Lemma agood_eqb R a b : attrs_eqb a b = true -> agood R a -> agood R b.
+Proof. unfold attrs_eqb. intros H Ha. apply agood_asort. eapply agood_eqb_ordered; [exact H|]. now apply agood_asort. Qed.
+
+(** Hydrogens.transcript_contract (same nodes, attributes equal except 'aromatic') carries the invariant over
+    the recorded result of pysmiles' correct_aromatic_rings *)
+Theorem inv_transcript R before after : Hydrogens.transcript_contract before after = true -> fid_inv R before -> fid_inv R after.
+Proof.
+  unfold Hydrogens.transcript_contract. intros H Hb. apply andb_true_iff in H as [H _]. apply andb_true_iff in H as [Hl H].
+  apply Nat.eqb_eq in Hl. revert after Hl H. unfold fid_inv in *.
+  induction Hb as [|n r Hn Hr IH]; destruct after as [|m r']; cbn; try discriminate; [constructor|].
+  intros Hl H. apply andb_true_iff in H as [H1 H2]. constructor; [|apply IH; [lia|exact H2]].
+  unfold Hydrogens.nrec_same_but in H1. repeat (apply andb_true_iff in H1 as [H1 ?]).
+  apply (agood_adel_inv R (S "aromatic")); [neq_str|]. eapply agood_eqb; [eassumption|]. now apply agood_adel.
+Qed.
+
+(** ---------------------------------------------------------------- the disconnected molecule *)
+(** attribute dicts have unique keys (they model Python dicts) *)
+Definition wf_attrs (fd : fragdict) : Prop := forall name g, fd_get name fd = Some g -> forall n, In n g -> NoDup (map fst (na n)).
+
+Lemma aset_keys k v a : map fst (aset k v a) = if ahas k a then map fst a else map fst a ++ [k].
+Proof.
+  unfold ahas. induction a as [|[k' v'] r IH]; cbn; [reflexivity|].
+  destruct (str_eqb k k'); cbn; [reflexivity|]. rewrite IH. destruct (aget k r); reflexivity.
+Qed.
+Lemma aget_none_keys k a : aget k a = None -> ~ In k (map fst a).
+Proof.
+  induction a as [|[k' v'] r IH]; cbn; [tauto|]. destruct (str_eqb_spec k k') as [->|N]; [discriminate|].
+  intros H [E|E]; [congruence|]. exact (IH H E).
+Qed.
+Lemma aset_nodup k v a : NoDup (map fst a) -> NoDup (map fst (aset k v a)).
+Proof.
+  intros H. rewrite aset_keys. unfold ahas. destruct (aget k a) eqn:E; [exact H|].
+  apply NoDup_app_intro; [exact H|repeat constructor; intros []|].
+  intros x Hx [<-|[]]. exact (aget_none_keys _ _ E Hx).
+Qed.
+Lemma merge_node_nodup off1 fo a a' : merge_node off1 fo a = Ok a' -> NoDup (map fst a) -> NoDup (map fst a').
+Proof.
+  unfold merge_node, bind. destruct (match aget (S "fragid") a with Some v => as_int v | None => Ok 0 end); [|discriminate].
+  unfold shift_ez. destruct (aget (S "ez_isomer_atoms") _) as [v|]; [|intros H; inversion H; subst; now apply aset_nodup].
+  destruct (as_list v) as [l|]; unfold bind; [|discriminate]. destruct l as [|x [|y r]]; try discriminate.
+  destruct (as_int x); [|discriminate]. destruct (as_int y); [|discriminate].
+  intros H Hn. inversion H; subst. now apply aset_nodup, aset_nodup.
+Qed.
+Lemma agood_set_fragid_nodup R v a : NoDup (map fst a) -> vok R v -> agood R (aset (S "fragid") v a).
+Proof.
+  intros Hn Hv. unfold agood. induction a as [|[k' v'] r IH]; cbn [aset]; [constructor; [intros _; exact Hv|constructor]|].
+  cbn [map fst] in Hn.
+  inversion Hn as [|? ? Hk Hr]; subst. destruct (str_eqb_spec (S "fragid") k') as [<-|N].
+  - constructor; [intros _; exact Hv|]. apply Forall_forall. intros [k2 v2] Hin E. cbn in E. subst k2.
+    exfalso. apply Hk. apply in_map_iff. exists (S "fragid", v2). auto.
+  - constructor; [apply egood_other; congruence|now apply IH].
+Qed.
+Lemma agood_stamped R ck name t a : NoDup (map fst a) -> In ck R -> agood R (stamped ck name t a).
+Proof.
+  intros Hn Hc. unfold stamped. apply agood_aset; [other_key|]. apply agood_set_fragid_nodup; [exact Hn|].
+  right. exists [VInt ck]. split; [reflexivity|]. repeat constructor. exists ck. auto.
+Qed.
+Lemma agood_weaken R R' a : (forall c, In c R -> In c R') -> agood R a -> agood R' a.
+Proof.
+  intros Hs. unfold agood. apply Forall_impl. intros [k v] He E. destruct (He E) as [->|[l [-> F]]]; [now left|].
+  right. exists l. split; [reflexivity|]. eapply Forall_impl; [|exact F]. intros x [c [-> Hc]]. exists c. auto.
+Qed.
+
+Definition fine_inv2 (R : list Z) (mol : graph) : Prop :=
+  NoDup (node_keys mol) /\ forall k a, node_attrs mol k = Ok a -> agood R a.
+
+Lemma disc_step_inv2 fd R mol fgs mn mol2 fgs2 : wf_dict fd -> wf_attrs fd -> fine_inv2 R mol ->
+  disc_step fd (mol, fgs) mn = Ok (mol2, fgs2) -> fine_inv2 (R ++ real_of fd mn) mol2.
+Proof.
+  intros Hw Hwa Hi H. unfold real_of.
+  destruct (aget (S "fragname") (na mn)) as [fv|] eqn:Hf; [|unfold disc_step in H; rewrite Hf in H; discriminate].
+  destruct (lookup_fragment fd fv) as [[name frag]|] eqn:Hl.
+  - destruct (lookup_fragment_get _ _ _ _ Hl) as [_ Hg]. pose proof (Hw _ _ Hg) as Hwf.
+    destruct (disc_step_real _ _ _ _ _ _ _ _ _ Hf Hl H) as [mol1 [corr [Hm Em]]].
+    destruct (merge_graphs_keys _ _ _ _ Hm Hwf) as [Hk Hold].
+    destruct (frag_copy _ _ _ _ Hm Hwf) as [off [fo [Ho [Ec Hc]]]].
+    destruct Hi as [Hn Ha]. destruct Hwf as [Hnt _].
+    assert (forall x, In x (node_keys mol) -> ~ In x (map snd corr)) as Hdisj.
+    { intros x Hx Hv. subst corr. apply in_map_iff in Hv as [[t y] [Ey Hy]]. cbn in Ey. subst y.
+      apply correspondence_fresh in Hy. pose proof (merge_offsets_max _ _ _ Ho _ Hx). lia. }
+    assert (NoDup (map (fun n => map_get corr (nk n)) frag)) as Hnd
+      by (subst corr; rewrite corr_values by exact Hnt; apply correspondence_injective).
+    split.
+    + subst mol2. rewrite stamp_keys, Hk. apply NoDup_app_intro; auto. subst corr. apply correspondence_injective.
+    + intros k a E.
+      assert (In k (node_keys mol2)) as Hin by (apply gfind_has; eapply node_attrs_has; exact E).
+      subst mol2. rewrite stamp_keys, Hk, in_app_iff in Hin. destruct Hin as [Hin|Hin].
+      * rewrite stamp_other in E.
+        -- rewrite (Hold k Hin) in E. apply (agood_weaken R); [intros c Hc'; apply in_or_app; now left|]. exact (Ha k a E).
+        -- intros X. apply (Hdisj k Hin). subst corr. rewrite <- corr_values by exact Hnt. exact X.
+      * assert (In k (map (fun n => map_get corr (nk n)) frag)) as Hin' by (subst corr; rewrite corr_values by exact Hnt; exact Hin).
+        apply in_map_iff in Hin' as [n [En Hn']]. subst k. destruct (Hc n Hn') as [a' [E1 E2]].
+        rewrite (stamp_same (map_get corr) (nk mn) name frag mol1 Hnd n a' Hn' E2) in E. inversion E; subst a.
+        apply agood_stamped; [|apply in_or_app; right; now left].
+        eapply merge_node_nodup; [exact E1|]. exact (Hwa _ _ Hg n Hn').
+  - unfold disc_step in H. rewrite Hf in H. unfold of_option, bind at 1 in H. rewrite Hl in H.
+    destruct (virtual_ok mn); [|discriminate]. unfold bind in H. inversion H; subst. now rewrite app_nil_r.
+Qed.
+
+Theorem disconnected_inv2 fd : wf_dict fd -> wf_attrs fd -> forall l R mol0 fgs0 mol fgs, fine_inv2 R mol0 ->
+  GraphOps.fold_res (disc_step fd) l (mol0, fgs0) = Ok (mol, fgs) -> fine_inv2 (R ++ flat_map (real_of fd) l) mol.
+Proof.
+  intros Hw Hwa. induction l as [|mn r IH]; intros R mol0 fgs0 mol fgs Hi H.
+  - cbn in H. inversion H; subst. cbn. now rewrite app_nil_r.
+  - change (GraphOps.fold_res (disc_step fd) (mn :: r) (mol0, fgs0))
+      with (b' <- disc_step fd (mol0, fgs0) mn ;; GraphOps.fold_res (disc_step fd) r b') in H.
+    destruct (disc_step fd (mol0, fgs0) mn) as [[m1 f1]|] eqn:E; [|discriminate]. unfold bind in H.
+    change (flat_map (real_of fd) (mn :: r)) with (real_of fd mn ++ flat_map (real_of fd) r).
+    rewrite app_assoc. eapply IH; [|exact H]. eapply disc_step_inv2; eauto.
+Qed.
+Lemma fine2_fid R g : fine_inv2 R g -> fid_inv R g.
+Proof.
+  intros [Hn Ha]. unfold fid_inv. apply Forall_forall. intros n Hin. apply (Ha (nk n)).
+  unfold node_attrs. now rewrite (gfind_in g Hn n Hin).
+Qed.
+(** the molecule resolve_disconnected_molecule builds satisfies the invariant for R = the coarse nodes with a fragment *)
+Theorem inv_disconnected fd meta mol fgs : wf_dict fd -> wf_attrs fd -> resolve_disconnected fd meta = Ok (mol, fgs) ->
+  fid_inv (flat_map (real_of fd) meta) mol.
+Proof.
+  intros Hw Hwa H. apply fine2_fid. apply (disconnected_inv2 fd Hw Hwa meta [] gempty [] mol fgs); [|exact H].
+  split; [constructor|]. intros k a E. discriminate.
+Qed.
+
+(** ---------------------------------------------------------------- the whole step *)
+Theorem step_fid_inv legacy aa fd prev car fo : wf_dict fd -> wf_attrs fd ->
+  resolve_step_full legacy aa fd prev car = Ok fo ->
+  fid_inv (flat_map (real_of fd) (fo_meta fo)) (fo_mol fo).
+Proof.
+  intros Hw Hwa. unfold resolve_step_full.
+  set (meta := set_nodes_from prev (S "fragname") (get_node_attributes prev (S "atomname"))).
+  set (R := flat_map (real_of fd) meta).
+  destruct (resolve_disconnected fd meta) as [[m1 fg1]|] eqn:E1; [|discriminate]. unfold bind at 1.
+  pose proof (inv_disconnected fd meta m1 fg1 Hw Hwa E1) as I1. fold R in I1.
+  destruct (bonding_step legacy aa meta m1 fg1) as [[m2 fg2]|] eqn:E2; [|discriminate]. unfold bind at 1.
+  pose proof (inv_bonding R _ _ _ _ _ _ _ I1 E2) as I2.
+  destruct (Squash.squash_atoms m2) as [m3|] eqn:E3; [|discriminate]. unfold bind at 1.
+  pose proof (inv_squash R _ _ I2 E3) as I3.
+  destruct (if aa then Hydrogens.rebuild_h_atoms_default m3 car else Ok m3) as [m4|] eqn:E4; [|discriminate]. unfold bind at 1.
+  assert (fid_inv R m4) as I4.
+  { destruct aa; [|inversion E4; now subst]. unfold Hydrogens.rebuild_h_atoms_default, Hydrogens.rebuild_h_atoms in E4.
+    destruct car as [g1|]; [|discriminate]. destruct (Hydrogens.transcript_contract m3 g1) eqn:Ec; [|discriminate].
+    eapply inv_rebuild_after_car; [|exact E4]. eapply inv_transcript; eauto. }
+  destruct (sort_nodes_by_attr m4) as [m5|] eqn:E5; [|discriminate]. unfold bind at 1.
+  pose proof (inv_sort R _ _ I4 E5) as I5.
+  destruct (if aa then EzImpl.annotate_ez_isomers_cgsmiles m5 else Ok m5) as [m6|] eqn:E6; [|discriminate]. unfold bind at 1.
+  assert (fid_inv R m6) as I6 by (destruct aa; [eapply inv_ez; eauto|inversion E6; now subst]).
+  destruct (annotate_fragments meta m6) as [fgs|]; [|discriminate]. unfold bind at 1.
+  destruct (if aa then set_atom_names m6 meta fgs else Ok (m6, fgs)) as [[m7 fgs']|] eqn:E7; [|discriminate]. unfold bind.
+  intros H. inversion H; subst. cbn [fo_meta fo_mol].
+  destruct aa; [eapply inv_set_atom_names; eauto|inversion E7; now subst].
+Qed.
+
+(** consequences for the RETURNED graphs of a whole step *)
+Lemma records_good R mol n k : fid_inv R mol -> records mol n k -> In k R.
+Proof.
+  intros Hi [v [l [Hin [El Hk]]]]. destruct (gna_in _ _ _ _ Hin) as [r [Hr [_ Ev]]].
+  pose proof (agood_get R (na r) v (inv_node_in R mol r Hi Hr) Ev) as [->|[l' [-> F]]]; [discriminate|].
+  cbn in El. inversion El; subst. rewrite Forall_forall in F. destruct (F _ Hk) as [c [E Hc]]. inversion E; subst. exact Hc.
+Qed.
+(** every membership the returned fine graph records is the key of a coarse node with a fragment *)
+Theorem step_records_real legacy aa fd prev car fo n k : wf_dict fd -> wf_attrs fd ->
+  resolve_step_full legacy aa fd prev car = Ok fo -> records (fo_mol fo) n k -> In k (flat_map (real_of fd) (fo_meta fo)).
+Proof. intros Hw Hwa H. apply records_good. eapply step_fid_inv; eauto. Qed.
+
+(** ---------------------------------------------------------------- the returned coarse graphs *)
+Lemma step_tail legacy aa fd prev car fo : wf_dict fd -> wf_attrs fd -> resolve_step_full legacy aa fd prev car = Ok fo ->
+  fid_inv (flat_map (real_of fd) (fo_meta fo)) (fo_m6 fo) /\
+  exists fgs0, annotate_fragments (fo_meta fo) (fo_m6 fo) = Ok fgs0 /\
+    (if aa then set_atom_names (fo_m6 fo) (fo_meta fo) fgs0 = Ok (fo_mol fo, fo_fgs fo)
+     else fo_mol fo = fo_m6 fo /\ fo_fgs fo = fgs0).
+Proof.
+  intros Hw Hwa. unfold resolve_step_full.
+  set (meta := set_nodes_from prev (S "fragname") (get_node_attributes prev (S "atomname"))).
+  set (R := flat_map (real_of fd) meta).
+  destruct (resolve_disconnected fd meta) as [[m1 fg1]|] eqn:E1; [|discriminate]. unfold bind at 1.
+  pose proof (inv_disconnected fd meta m1 fg1 Hw Hwa E1) as I1. fold R in I1.
+  destruct (bonding_step legacy aa meta m1 fg1) as [[m2 fg2]|] eqn:E2; [|discriminate]. unfold bind at 1.
+  pose proof (inv_bonding R _ _ _ _ _ _ _ I1 E2) as I2.
+  destruct (Squash.squash_atoms m2) as [m3|] eqn:E3; [|discriminate]. unfold bind at 1.
+  pose proof (inv_squash R _ _ I2 E3) as I3.
+  destruct (if aa then Hydrogens.rebuild_h_atoms_default m3 car else Ok m3) as [m4|] eqn:E4; [|discriminate]. unfold bind at 1.
+  assert (fid_inv R m4) as I4.
+  { destruct aa; [|inversion E4; now subst]. unfold Hydrogens.rebuild_h_atoms_default, Hydrogens.rebuild_h_atoms in E4.
+    destruct car as [g1|]; [|discriminate]. destruct (Hydrogens.transcript_contract m3 g1) eqn:Ec; [|discriminate].
+    eapply inv_rebuild_after_car; [|exact E4]. eapply inv_transcript; eauto. }
+  destruct (sort_nodes_by_attr m4) as [m5|] eqn:E5; [|discriminate]. unfold bind at 1.
+  pose proof (inv_sort R _ _ I4 E5) as I5.
+  destruct (if aa then EzImpl.annotate_ez_isomers_cgsmiles m5 else Ok m5) as [m6|] eqn:E6; [|discriminate]. unfold bind at 1.
+  assert (fid_inv R m6) as I6 by (destruct aa; [eapply inv_ez; eauto|inversion E6; now subst]).
+  destruct (annotate_fragments meta m6) as [fgs|] eqn:E7; [|discriminate]. unfold bind at 1.
+  destruct (if aa then set_atom_names m6 meta fgs else Ok (m6, fgs)) as [[m7 fgs']|] eqn:E8; [|discriminate]. unfold bind.
+  intros H. inversion H; subst. cbn [fo_meta fo_mol fo_m6 fo_fgs]. split; [exact I6|]. exists fgs. split; [exact E7|].
+  destruct aa; [exact E8|inversion E8; auto].
+Qed.
+
+(** the node sets of the coarse graphs are not touched by the atom naming *)
+Definition fg_keys (fgs : fgraphs) : list (Z * list Z) := map (fun kg => (fst kg, node_keys (snd kg))) fgs.
+Lemma fg_set_keys mn g g' : forall fgs, fg_get mn fgs = Some g -> node_keys g' = node_keys g -> fg_keys (fg_set mn g' fgs) = fg_keys fgs.
+Proof.
+  induction fgs as [|[k h] r IH]; cbn [fg_get fg_set]; [discriminate|]. destruct (Z.eqb mn k).
+  - intros H E. inversion H; subst. unfold fg_keys. cbn [map fst snd]. now rewrite E.
+  - intros H E. unfold fg_keys in *. cbn [map fst snd]. now rewrite IH.
+Qed.
+Lemma set_atom_names_keys mol meta fgs mol' fgs' : set_atom_names mol meta fgs = Ok (mol', fgs') -> fg_keys fgs' = fg_keys fgs.
+Proof.
+  unfold set_atom_names.
+  assert (forall l st st', GraphOps.fold_res name_group l st = Ok st' -> fg_keys (snd st') = fg_keys (snd st)) as Hf.
+  { induction l as [|grp r IH]; cbn; intros st st' H; [inversion H; now subst|].
+    destruct (name_group st grp) as [st1|] eqn:E; cbn in H; [|discriminate]. rewrite (IH st1 st' H).
+    clear -E. unfold name_group in E. revert st st1 E.
+    generalize (enumerate_from 0 (snd grp)). induction l as [|ix r IH]; cbn; intros st st1 E; [inversion E; now subst|].
+    destruct (name_one (fst grp) st ix) as [st2|] eqn:E2; cbn in E; [|discriminate]. rewrite (IH st2 st1 E).
+    clear -E2. unfold name_one in E2. destruct st as [mol fgs]. destruct ix as [idx node]. unfold bind, of_option in E2.
+    destruct (node_attrs mol node); [|discriminate]. destruct (aget (S "element") a); [|discriminate].
+    destruct (as_str p); [|discriminate].
+    destruct (fg_get (fst grp) fgs) eqn:Eg; inversion E2; subst; cbn [snd]; [|reflexivity].
+    eapply fg_set_keys; [exact Eg|apply keys_set]. }
+  intros H. exact (Hf _ (mol, fgs) (mol', fgs') H).
+Qed.
+
+(** C11_virtual_empty for the RETURNED graphs of a whole (end-to-end) step: the coarse graph of a fragment-less
+    node, wherever it stands in the coarse graph, has no node *)
+Theorem step_virtual_empty legacy aa fd prev car fo mv g : wf_dict fd -> wf_attrs fd ->
+  resolve_step_full legacy aa fd prev car = Ok fo ->
+  NoDup (node_keys (fo_meta fo)) -> In mv (fo_meta fo) -> real_of fd mv = [] ->
+  In (nk mv, g) (fo_fgs fo) -> node_keys g = [].
+Proof.
+  intros Hw Hwa H Hn Hin Hv Hg. destruct (step_tail _ _ _ _ _ _ Hw Hwa H) as [I6 [fgs0 [Ea Ht]]].
+  assert (In (nk mv, node_keys g) (fg_keys fgs0)) as Hk.
+  { assert (fg_keys (fo_fgs fo) = fg_keys fgs0) as <-.
+    { destruct aa; [eapply set_atom_names_keys; exact Ht|destruct Ht as [_ ->]; reflexivity]. }
+    unfold fg_keys. apply in_map_iff. exists (nk mv, g). auto. }
+  unfold fg_keys in Hk. apply in_map_iff in Hk as [[k g0] [E Hg0]]. cbn [fst snd] in E. injection E as E1 E2. subst k. rewrite <- E2.
+  destruct (node_keys g0) as [|n r] eqn:En; [reflexivity|]. exfalso.
+  apply (virtual_not_recorded fd (fo_meta fo) mv Hn Hin Hv).
+  apply (records_good _ (fo_m6 fo) n (nk mv) I6). apply (frag_exact _ _ _ Ea (nk mv) g0 Hg0 n). rewrite En. now left.
+Qed.
+(** frag_exact for the RETURNED coarse graphs: coarse node k carries exactly the fine nodes (of the graph handed
+    to annotate_fragments; the atom naming changes no key and no fragid) whose fragid lists k, and k is the key
+    of a coarse node with a fragment whenever the graph is not empty *)
+Theorem step_frag_exact legacy aa fd prev car fo k g : wf_dict fd -> wf_attrs fd ->
+  resolve_step_full legacy aa fd prev car = Ok fo -> In (k, g) (fo_fgs fo) ->
+  forall n, In n (node_keys g) -> records (fo_m6 fo) n k /\ In k (flat_map (real_of fd) (fo_meta fo)).
+Proof.
+  intros Hw Hwa H Hg n Hn. destruct (step_tail _ _ _ _ _ _ Hw Hwa H) as [I6 [fgs0 [Ea Ht]]].
+  assert (In (k, node_keys g) (fg_keys fgs0)) as Hk.
+  { assert (fg_keys (fo_fgs fo) = fg_keys fgs0) as <-.
+    { destruct aa; [eapply set_atom_names_keys; exact Ht|destruct Ht as [_ ->]; reflexivity]. }
+    unfold fg_keys. apply in_map_iff. exists (k, g). auto. }
+  unfold fg_keys in Hk. apply in_map_iff in Hk as [[k0 g0] [E Hg0]]. cbn [fst snd] in E. injection E as E1 E2. subst k0. rewrite <- E2 in Hn.
+  assert (records (fo_m6 fo) n k) as Hr by (apply (frag_exact _ _ _ Ea k g0 Hg0 n); exact Hn).
+  split; [exact Hr|exact (records_good _ _ n k I6 Hr)].
+Qed.
